@@ -20,6 +20,8 @@
 //!   S7v  three commits of o1: light -> dark -> light (the last block records a change but lists NO pack: the value is
 //!        already stored); S7d  the last commit is a deletion only (no pack); S7r  S4 + resolve_as(o1, winner) committed
 //!        (a resolution-only block without pack) — all three with nothing staged
+//!   S8q  24 extra tracked objects (more than the 16-entry object cache) whose strings end in a backslash, contain escaped
+//!        quotes, braces and backslash + quote sequences; two commits, nothing staged
 //!   S6 / S6s  like S2c / S2 with more array versions and both LRU caches capped at ONE entry
 //!        (MELDA_ARRAYDESCRIPTORS_CACHE_CAP / MELDA_DATA_CACHE_CAP = 1; there is no constructor taking cache sizes)
 //! Operations (each in every situation where it is defined), observation before == after:
@@ -172,7 +174,7 @@ fn stranger() -> Result<Melda, String> {
     Ok(o)
 }
 
-const SITUATIONS: [&str; 16] = ["S1", "S2c", "S2", "S3", "S3s", "S4", "S4s", "S5a", "S5as", "S5b", "S5bs", "S7v", "S7d", "S7r", "S6", "S6s"];
+const SITUATIONS: [&str; 17] = ["S1", "S2c", "S2", "S3", "S3s", "S4", "S4s", "S5a", "S5as", "S5b", "S5bs", "S7v", "S7d", "S7r", "S8q", "S6", "S6s"];
 
 fn build(sit: &str, script: usize, seed: u64) -> Result<Sit, String> {
     let mut rng = if script == 0 { None } else { Some(Rng::new(seed.wrapping_mul(7919).wrapping_add(script as u64))) };
@@ -203,6 +205,26 @@ fn build(sit: &str, script: usize, seed: u64) -> Result<Sit, String> {
                     }
                 }
             }
+            Ok(Sit { m, ad, peer: stranger()?, storage_applied: true })
+        }
+        "S8q" => {
+            // more tracked objects than the 16-entry object cache holds, with string values that stress the scanner of
+            // stored packs: trailing backslashes, escaped quotes, braces, backslash + quote sequences
+            let strings = ["ends with a backslash\\", "quote\"inside", "brace}{brace", "bs-quote\\\"tail", "\\", "\\\\", "}\"{\\", "\\\"", "a\\\\\"b}", "{\"k\":\"v\\\\\"}"];
+            let big = |round: usize| {
+                let mut d = model.doc();
+                for i in 0..24usize {
+                    let s1 = strings[(i + round) % strings.len()];
+                    let s2 = strings[(i * 3 + 1) % strings.len()];
+                    d.insert(format!("q{:02}{}", i, F), json!({"_id": format!("q{:02}", i), "s": s1, "t": [s2, {"u": s1}], s2: i}));
+                }
+                d
+            };
+            let m = orch::open(&ad)?;
+            orch::ge("update", || m.update(big(0)))?;
+            commit_some(&m, "commit 1")?;
+            orch::ge("update", || m.update(big(1)))?;
+            commit_some(&m, "commit 2")?;
             Ok(Sit { m, ad, peer: stranger()?, storage_applied: true })
         }
         "S7v" | "S7d" => {
@@ -736,9 +758,9 @@ pub fn run(thorough: bool, seed: u64) -> Report {
     let mut rep = Report::new(
         "maintenance",
         if thorough {
-            "16 situations (S1 staged only; S2c/S2 committed / + staged; S3/S3s melded but not refreshed; S4/S4s object conflict; S5a/S5as, S5b/S5bs array conflict append|append and reverse|remove; S7v/S7d/S7r last block without pack: value set back, deletion only, resolution only; S6/S6s both LRU caches capped at 1) x 12 edit scripts (script 0 fixed, 11 seeded) x every defined operation out of {snapshot-only, commit-propagates, commit, commit-info, commit-nothing, snapshot, meld-in, meld-out, refresh, meld-refresh-nothing-new, refresh-after-commit, reload-after-commit, reload, reopen, stage-export}"
+            "17 situations (S1 staged only; S2c/S2 committed / + staged; S3/S3s melded but not refreshed; S4/S4s object conflict; S5a/S5as, S5b/S5bs array conflict append|append and reverse|remove; S7v/S7d/S7r last block without pack: value set back, deletion only, resolution only; S8q 24 objects with backslash / quote / brace strings; S6/S6s both LRU caches capped at 1) x 12 edit scripts (script 0 fixed, 11 seeded) x every defined operation out of {snapshot-only, commit-propagates, commit, commit-info, commit-nothing, snapshot, meld-in, meld-out, refresh, meld-refresh-nothing-new, refresh-after-commit, reload-after-commit, reload, reopen, stage-export}"
         } else {
-            "16 situations (S1 staged only; S2c/S2 committed / + staged; S3/S3s melded but not refreshed; S4/S4s object conflict; S5a/S5as, S5b/S5bs array conflict append|append and reverse|remove; S7v/S7d/S7r last block without pack: value set back, deletion only, resolution only; S6/S6s both LRU caches capped at 1) x 2 edit scripts (script 0 fixed, 1 seeded) x every defined operation out of {snapshot-only, commit-propagates, commit, commit-info, commit-nothing, snapshot, meld-in, meld-out, refresh, meld-refresh-nothing-new, refresh-after-commit, reload-after-commit, reload, reopen, stage-export}"
+            "17 situations (S1 staged only; S2c/S2 committed / + staged; S3/S3s melded but not refreshed; S4/S4s object conflict; S5a/S5as, S5b/S5bs array conflict append|append and reverse|remove; S7v/S7d/S7r last block without pack: value set back, deletion only, resolution only; S8q 24 objects with backslash / quote / brace strings; S6/S6s both LRU caches capped at 1) x 2 edit scripts (script 0 fixed, 1 seeded) x every defined operation out of {snapshot-only, commit-propagates, commit, commit-info, commit-nothing, snapshot, meld-in, meld-out, refresh, meld-refresh-nothing-new, refresh-after-commit, reload-after-commit, reload, reopen, stage-export}"
         },
         "exhaustive over situations x scripts x defined operations; one case each (situation rebuilt, observation before == after, reopen where something was persisted); every case non-trivial; each case guarded in its own thread with a 5 s limit, unfinished cases are booked as hang:<case id> and the oracle goes on",
     );
